@@ -765,3 +765,69 @@ Proof.
   change (frow (swapf F) r) with (frow F r).
   apply set_mc_eqv. apply (fl_at F' F HF r c Hin).
 Qed.
+
+(* ------------------------------------------------------------------ pipelines *)
+
+Lemma flip_ok_all_sizes : forall A (E : A -> A -> Prop) (f : op A A) nr nc, flip_ok E f -> flip_ok_at nr nc E f.
+Proof. intros A E f nr nc H F' F _ _ HF r c Hin. apply H; assumption. Qed.
+
+Lemma flipped_lift_at : forall A (E : A -> A -> Prop) (f : op A A) nr nc F' F, f_nr F = nr -> f_nc F = nc ->
+  flip_ok_at nr nc E f -> flipped E F' F -> flipped E (lift f F') (lift f F).
+Proof.
+  intros A E f nr nc F' F En Ec Hf HF. pose proof HF as (E1 & E2 & _). unfold flipped, lift. cbn [f_nr f_nc f_at].
+  split; [assumption|split; [assumption|]]. intros r c Hin.
+  change (frow (mkFrame (f_nr F) (f_nc F) (f F)) r) with (frow F r). apply Hf; assumption.
+Qed.
+
+Theorem pipeline_flip_at : forall A (E : A -> A -> Prop) nr nc (steps : list (op A A)),
+  Forall (flip_ok_at nr nc E) steps -> flip_ok_at nr nc E (run_pipe steps).
+Proof.
+  intros A E nr nc steps H. induction H as [|s rest Hs Hrest IH].
+  - intros F' F _ _ (_ & _ & HF) r c Hin. cbn [run_pipe]. apply HF. exact Hin.
+  - intros F' F En Ec HF r c Hin. cbn [run_pipe]. unfold comp.
+    change (frow F r) with (frow (lift s F) r). apply IH; try assumption.
+    apply (flipped_lift_at A E s nr nc); assumption.
+Qed.
+
+(* side conditions of the flip, per step, on rasters of nr x nc pixels: odd windows (the matching-cost window is odd by
+   cfg_wf), census window 1/3/5, symmetric border statements of criteria.py, symmetric bilateral kernel *)
+Definition step_flip_wf (V : env) (nr nc : Z) (s : step) : Prop :=
+  match s with
+  | SMc m => meas_wf (e_cfg V) m /\ bord_sym (e_flags V)
+  | SCbca dist _ => False     (* cbca: not proved here *)
+  | SMedian w => 0 < w /\ Z.odd w = true
+  | SBilateral sigma sk rk => bil_flip_ok nr nc sigma sk rk
+  | _ => True
+  end.
+
+Lemma step_flip : forall V nr nc s, env_wf V -> step_flip_wf V nr nc s -> flip_ok_at nr nc pix_eqv (step_op V s).
+Proof.
+  intros V nr nc s (Hc & Hb1 & Hb2 & Hb3) Hs. destruct s; cbn [step_op step_flip_wf] in *.
+  - destruct Hs as [Hm Hsym]. apply flip_ok_all_sizes. apply mc_step_flip; assumption.
+  - contradiction.
+  - apply flip_ok_all_sizes. apply wta_step_flip; assumption.
+  - apply flip_ok_all_sizes. apply refine_step_flip.
+  - destruct Hs as [Hw Ho]. apply flip_ok_all_sizes. apply median_step_flip; assumption.
+  - apply bilateral_step_flip; assumption.
+  - apply flip_ok_all_sizes. apply xcheck_step_flip.
+Qed.
+
+(* MAIN: a pipeline run on the pair of images turned upside down gives, at every pixel, what the run on the pair gives
+   at the mirrored row: radiometry, masks, cost curves, validity flags equal, disparities the same numbers *)
+Theorem pipe_flip : forall V steps (F' F : frame pix), env_wf V ->
+  Forall (step_flip_wf V (f_nr F) (f_nc F)) steps -> flipped pix_eqv F' F ->
+  forall r c, in_frame F r c ->
+  pix_eqv (run_pipe (map (step_op V) steps) F' r c) (run_pipe (map (step_op V) steps) F (frow F r) c).
+Proof.
+  intros V steps F' F HV Hs HF r c Hin.
+  apply (pipeline_flip_at pix pix_eqv (f_nr F) (f_nc F)); try assumption; try reflexivity.
+  apply Forall_map. eapply Forall_impl; [|exact Hs]. intros s H. apply step_flip; assumption.
+Qed.
+
+Corollary pipe_vflip : forall V steps (F : frame pix), env_wf V ->
+  Forall (step_flip_wf V (f_nr F) (f_nc F)) steps ->
+  forall r c, in_frame F r c ->
+  pix_eqv (run_pipe (map (step_op V) steps) (vflip F) r c) (run_pipe (map (step_op V) steps) F (frow F r) c).
+Proof.
+  intros V steps F HV Hs r c Hin. apply pipe_flip; try assumption. apply vflip_flipped. exact pix_eqv_refl.
+Qed.
